@@ -199,44 +199,48 @@ def rule_reserve_and_codec(chk):
         raise AnalysisError("TaskLevel.fromString: decoder shape not modelled")
     # fromString may refuse nothing toString can produce: a rejection guarded by a regular expression is decided on witnesses
     import re as _re
-    fcfg = ctx.cfg(fs)
     witnesses = ["/", "/1", "/9", "/10", "/2/1", "/1/20/300", "/1234567890/1", "/100"]
-    for rn in [n for n in fcfg.live if n.kind == "raise_stmt"]:
-        decided = False
-        for t, lab in fcfg.guards_of(rn):
-            if t.kind != "test":
-                continue
-            e, lab2 = X.strip_not(X.inline(fs, t.exprs[0]), lab)
-            call, when_none = None, None
-            if isinstance(e, ast.Compare) and len(e.ops) == 1 and isinstance(e.comparators[0], ast.Constant) and e.comparators[0].value is None and isinstance(e.left, ast.Call):
-                call = e.left
-                when_none = (lab2 == "true") == isinstance(e.ops[0], (ast.Is, ast.Eq))
-            elif isinstance(e, ast.Call):
-                call, when_none = e, lab2 == "false"
-            if call is None or not isinstance(call.func, ast.Attribute) or call.func.attr not in ("fullmatch", "match", "search"):
-                continue
-            recv = call.func.value
-            pat = None
-            r = p.resolve_expr_static(fs.module, fs, recv) if isinstance(recv, (ast.Name, ast.Attribute)) else None
-            if r and r[0] == "modvar":
-                vals = [v for v in r[1].assigns.get(r[2], []) if isinstance(v, ast.Call)]
-                if vals and vals[0].args:
-                    okp, pat = ctx.try_fold(r[1], vals[0].args[0])
-            elif r and r[0] == "ext" and r[1] == "re" and call.args:
-                okp, pat = ctx.try_fold(fs, call.args[0])
-            if not isinstance(pat, str) or not when_none:
-                continue
-            try:
-                rx = _re.compile(pat)
-            except _re.error:
-                raise AnalysisError("fromString: the guard's regular expression %r does not compile" % pat)
-            refused = [w for w in witnesses if getattr(rx, call.func.attr)(w) is None]
-            decided = True
-            if refused:
-                problems.append("fromString raises unless the string matches %r, which refuses %s: serialized positions toString produces (any index containing the digit 0, e.g. the 10th child) "
-                                "can no longer be continued" % (pat, refused[:4]))
-        if not decided:
-            raise AnalysisError("TaskLevel.fromString raises at line %d under a condition the analyser does not model" % rn.lineno)
+    uuid_w = "3f2a4b1c-0d9e-4f6a-8b7c-5d4e3f2a1b0c"
+    fs0 = fs
+    for fs, fcfg, wit_sets in ((fs0, ctx.cfg(fs0), [witnesses]), (ct, ctx.cfg(ct), [witnesses[1:], ["%s@%s" % (uuid_w, w_) for w_ in witnesses[1:]]])):
+      for rn in [n for n in fcfg.live if n.kind == "raise_stmt"]:
+          decided = False
+          for t, lab in fcfg.guards_of(rn):
+              if t.kind != "test":
+                  continue
+              e, lab2 = X.strip_not(X.inline(fs, t.exprs[0]), lab)
+              call, when_none = None, None
+              if isinstance(e, ast.Compare) and len(e.ops) == 1 and isinstance(e.comparators[0], ast.Constant) and e.comparators[0].value is None and isinstance(e.left, ast.Call):
+                  call = e.left
+                  when_none = (lab2 == "true") == isinstance(e.ops[0], (ast.Is, ast.Eq))
+              elif isinstance(e, ast.Call):
+                  call, when_none = e, lab2 == "false"
+              if call is None or not isinstance(call.func, ast.Attribute) or call.func.attr not in ("fullmatch", "match", "search"):
+                  continue
+              recv = call.func.value
+              pat = None
+              r = p.resolve_expr_static(fs.module, fs, recv) if isinstance(recv, (ast.Name, ast.Attribute)) else None
+              if r and r[0] == "modvar":
+                  vals = [v for v in r[1].assigns.get(r[2], []) if isinstance(v, ast.Call)]
+                  if vals and vals[0].args:
+                      okp, pat = ctx.try_fold(r[1], vals[0].args[0])
+              elif r and r[0] == "ext" and r[1] == "re" and call.args:
+                  okp, pat = ctx.try_fold(fs, call.args[0])
+              if not isinstance(pat, str) or not when_none:
+                  continue
+              try:
+                  rx = _re.compile(pat)
+              except _re.error:
+                  raise AnalysisError("fromString: the guard's regular expression %r does not compile" % pat)
+              refused_sets = [[w for w in ws if getattr(rx, call.func.attr)(w) is None] for ws in wit_sets]
+              refused = refused_sets[0] if all(refused_sets) else []
+              decided = True
+              if refused:
+                  problems.append("%s raises unless the string matches %r, which refuses %s: serialized positions toString produces (any index of two or more digits / containing the digit 0, "
+                                  "e.g. the 10th child) can no longer be continued" % (fs.name, pat, refused[:4]))
+          if not decided and fs is fs0:
+              raise AnalysisError("TaskLevel.fromString raises at line %d under a condition the analyser does not model" % rn.lineno)
+    fs = fs0
     chk.req(not problems, "C06.codec", "TaskLevel.toString<->fromString:agree", chk.where(fs),
             good="join %r / split %r, int per non-empty segment" % (jsep, jsep), fail="; ".join(problems))
 
